@@ -55,21 +55,29 @@ def DataS.colsS (D : DataS) (r : Req) (clim : Option Vec) :
     let (s2, cols) ← D.colsS r clim s1 rest
     .ok (s2, col :: cols)
 
+/-- the climatology's forecast for the slice, through the cache -/
+def DataS.climS (D : DataS) (s : DState) (r : Req) : Except String (DState × Option Vec) :=
+  if D.doClim r then
+    match D.getRef s "fcst" (D.inputs.length - 1) with
+    | .error e => .error e
+    | .ok (s1, ref) => .ok (s1, some (applySel (s1.store.getD ref []) r.sel))
+  else .ok (s, none)
+
 /-- `get_scores` with both caches -/
 def DataS.step (D : DataS) (s : DState) (r : Req) : Except String (DState × List Vec) :=
   match s.answers r with
   | some ans => .ok (s, ans)
-  | none => do
-    if r.input ≥ D.nScored then throw "input_index out of range"
-    let obsFcst := r.fields.contains "obs" || r.fields.contains "fcst"
-    let doClim := D.cfg.clim.isSome && obsFcst
-    let (s1, clim) ← (if doClim then do
-        let (s1, ref) ← D.getRef s "fcst" (D.inputs.length - 1)
-        pure (s1, some (applySel (s1.store.getD ref []) r.sel))
-      else pure (s, none))
-    let (s2, cols) ← D.colsS r clim s1 r.fields
-    let ans := finish r.sel r.fields.length cols
-    .ok ({ s2 with answers := fun k => if k = r then some ans else s2.answers k }, ans)
+  | none =>
+    if r.input ≥ D.nScored then .error "input_index out of range"
+    else
+      match D.climS s r with
+      | .error e => .error e
+      | .ok (s1, clim) =>
+        match D.colsS r clim s1 r.fields with
+        | .error e => .error e
+        | .ok (s2, cols) =>
+          let ans := finish r.sel r.fields.length cols
+          .ok ({ s2 with answers := fun k => if k = r then some ans else s2.answers k }, ans)
 
 /-- run a request history; stops at the first error (the command-line tool terminates there) -/
 def DataS.run (D : DataS) : DState → List Req → Except String (DState × List (List Vec))
